@@ -86,33 +86,22 @@ def check(ctx, rep):
     else:
         rep.analysed(g)
         HM = 'cadence_macros::state::SingletonHolder::'
-        g0 = g
-        g = inl(mac, g, never=lambda x: strip_generics(x.path).startswith(HM))
-        T = Terms(g)
-        rts = ret_terms(T, [0])
-        ok = False
-        gets = [bi for bi, t in g.calls() if callee_is(t, 'cadence_macros::state::SingletonHolder::get') and not g.blocks[bi]['cleanup']]
-        if len(gets) == 1:
-            gct = norm(T.call_term(gets[0]))
-            a = peel(gct[2][0])
-            root_ = a
-            while root_[0] in ('field', 'ref', 'deref'):
-                root_ = root_[1]
-            is_holder = root_[0] == 'static'
-            holder_id = a
-            rc = result_cases(T, gets[0])
-            from ..terms import field_of as _fo
-            want_ok = ('adt', 'core::result::Result', 'Ok', (('0', _fo(('payload', gct, 'Some'), '0', 0)),))
-            ok = is_holder and not rc['?'] and rc['ok'] == {want_ok} and bool(rc['err']) and \
-                all(r[0] == 'adt' and r[2] == 'Err' and any(y[0] == 'adt' and y[2] == 'GlobalDefaultNotSet' for y in walk(r)) for r in rc['err'])
+        ok, rts, holder_id = _lookup_shape(mac, g)
         rep.ob('W2', 'get_global_default-is-holder-get', ok, g.where(), 'get_global_default() = HOLDER.get().ok_or(GlobalDefaultNotSet)' if ok else 'get_global_default returns %s' % [fmt(x) for x in rts])
+        # a second (hidden) lookup the expansions use instead (`_borrow_global_default() = HOLDER.get_ref().ok_or(..)`): same
+        # shape, same holder
+        for lp in sorted(getattr(ctx, '_c17_lookups', ())):
+            lb = [x for x in mac.all_bodies if strip_generics(x.path) == lp and x.def_kind == 'Fn']
+            ok2, rts2, hid2 = _lookup_shape(mac, lb[0]) if len(lb) == 1 else (False, [], None)
+            rep.ob('W2', '%s-is-holder-get' % lp.rsplit('::', 1)[-1], ok2 and hid2 == holder_id, lb[0].where() if lb else '',
+                   '%s() = HOLDER.<reader>().ok_or(GlobalDefaultNotSet) on the same holder' % lp.rsplit('::', 1)[-1])
         s = mac.bodies.get('cadence_macros::state::set_global_default')
         if s is not None:
             s = inl(mac, s, never=lambda x: strip_generics(x.path).startswith(HM))
             Ts = Terms(s)
             calls = [norm(Ts.call_term(bi)) for bi, t in s.calls() if not s.blocks[bi]['cleanup']]
             oks = len(calls) == 1 and term_callee_is(calls[0], 'cadence_macros::state::SingletonHolder::set') and calls[0][2][1] == ('param', 1) \
-                and len(gets) == 1 and peel(calls[0][2][0]) == holder_id
+                and holder_id is not None and peel(calls[0][2][0]) == holder_id
             rep.ob('W2', 'set_global_default-is-holder-set', oks, s.where(), 'set_global_default(c) = HOLDER.set(c)')
     # "panics iff no global client has been set": a completed set must stay visible - the set-once part of C18 (writer
     # election by one strong CAS from the initial state, losers leave everything alone, nobody else touches the state);
@@ -125,7 +114,7 @@ def check(ctx, rep):
                 'frame', 'constants-distinct', 'get/none-until-complete', 'get/returns-clone-of-stored')
 
         def ob(self, rule, instance, ok, *a, **k):
-            if instance in self.KEEP:
+            if instance in self.KEEP or instance.endswith(('/none-until-complete', '/returns-clone-of-stored', '/read-only-when-complete')):
                 return self._r.ob('W4', instance, ok, *a, **k)
             return True
 
@@ -188,6 +177,46 @@ def rule_macro_values(ctx, rep, rid='W1v'):
             why = ('the client method is instantiated for %s, the value supplied is a %s' % (t_.get('callee_args'), ty)) if not okt else \
                 'the value is not handed over as supplied: %s' % fmt(ct[2][2])[:100]
         rep.ob(rid, '%s/%s/value-passed-unchanged' % (mac, ident(ty)), ok, b.where(), '%s!(key, v) calls %s(key, v) with v as supplied' % (mac, meth) if ok else why)
+
+
+def _holder_readers(mac):
+    """SingletonHolder::get and any other inherent method of the holder that reaches into the cell (held to R3 by the C18 rules)"""
+    H = 'cadence_macros::state::SingletonHolder'
+    out = set()
+    for x in mac.all_bodies:
+        if x.def_kind == 'AssocFn' and not x.impl_trait and x.impl_self and type_head(x.impl_self) == H and x.j.get('reachable') and \
+                strip_generics(x.path).rsplit('::', 1)[-1] not in ('set', 'new', 'is_set'):
+            ib = inl(mac, x)
+            if any(strip_generics(t_.get('callee_full', '')).startswith('core::cell::UnsafeCell::') for _, t_ in ib.calls()):
+                out.add(strip_generics(x.path))
+    return out
+
+
+def _lookup_shape(mac, g):
+    """g() = STATIC_HOLDER.<reader>().ok_or(GlobalDefaultNotSet) -> (ok, return terms, holder term)"""
+    HM = 'cadence_macros::state::SingletonHolder::'
+    g = inl(mac, g, never=lambda x: strip_generics(x.path).startswith(HM))
+    T = Terms(g)
+    rts = ret_terms(T, [0])
+    ok = False
+    holder_id = None
+    readers = _holder_readers(mac)
+    gets = [bi for bi, t in g.calls() if strip_generics(t.get('resolved') or t.get('callee_full', '')) in readers and not g.blocks[bi]['cleanup']]
+    others = [bi for bi, t in g.calls() if strip_generics(t.get('callee_full', '')).startswith(HM) and bi not in gets and not g.blocks[bi]['cleanup']]
+    if len(gets) == 1 and not others:
+        gct = norm(T.call_term(gets[0]))
+        a = peel(gct[2][0])
+        root_ = a
+        while root_[0] in ('field', 'ref', 'deref'):
+            root_ = root_[1]
+        is_holder = root_[0] == 'static'
+        holder_id = a
+        rc = result_cases(T, gets[0])
+        from ..terms import field_of as _fo
+        want_ok = ('adt', 'core::result::Result', 'Ok', (('0', _fo(('payload', gct, 'Some'), '0', 0)),))
+        ok = is_holder and not rc['?'] and rc['ok'] == {want_ok} and bool(rc['err']) and \
+            all(r[0] == 'adt' and r[2] == 'Err' and any(y[0] == 'adt' and y[2] == 'GlobalDefaultNotSet' for y in walk(r)) for r in rc['err'])
+    return ok, rts, holder_id
 
 
 def _is_unwrapped_global(mac, path):
@@ -289,6 +318,15 @@ def check_expansion(b, fn, tr, ty, n, rep, ctx=None):
         # the lookup-or-panic lives in a hidden helper of the macro crate: same two steps, one call site
         bb0, _, t0 = calls[0]
         calls = [(bb0, 'cadence_macros::state::get_global_default', t0), (bb0, 'core::result::Result::unwrap', t0)] + calls[1:]
+    G_ = 'cadence_macros::state::get_global_default'
+    if calls and ctx is not None and calls[0][1].startswith('cadence_macros::') and calls[0][1] != G_ and len(calls) > 1 and \
+            calls[1][1] in ('core::result::Result::unwrap', 'core::result::Result::expect', 'UNWRAP'):
+        # another lookup function of the macro crate followed by unwrap: accepted when it has the shape of get_global_default
+        # (decided by W2 over the names collected here)
+        lb_ = [x for x in ctx.mac.all_bodies if strip_generics(x.path) == calls[0][1] and x.def_kind == 'Fn']
+        if len(lb_) == 1 and _lookup_shape(ctx.mac, lb_[0])[0]:
+            ctx.__dict__.setdefault('_c17_lookups', set()).add(calls[0][1])
+            calls = [(calls[0][0], G_, calls[0][2])] + calls[1:]
     exp = []
     exp.append(('cadence_macros::state::get_global_default', None))
     exp.append(('UNWRAP', None))
